@@ -161,9 +161,11 @@ func runC09(c *Ctx) {
 	r.Check("C09.2", "dispatch", okDispatch, c.U.Pos(w.Pos()), fmt.Sprintf("encoders by extension: %v (expected yaml.v3 for .yaml, encoding/json otherwise)", encoders))
 	// reader: one decoder
 	decoder := ""
+	var decoderFn *ssa.Function
 	for _, call := range ir.Calls(ps) {
 		if f := call.Common().StaticCallee(); f != nil && (strings.Contains(f.String(), "Unmarshal") || strings.Contains(f.String(), "Decode")) {
 			decoder = f.String()
+			decoderFn = f
 		}
 	}
 	readSpec := c.U.Func("cdi", "ReadSpec")
@@ -211,7 +213,18 @@ func runC09(c *Ctx) {
 				}
 			}
 			if san != nil {
-				if ok, detail := c09SanitizerOK(c, san); ok {
+				refused, where, derived := c.yamlReaderRefused(decoderFn)
+				if !derived {
+					r.Undecided("C09.3", key+":reader-charset", c.U.Pos(ps.Pos()), "the character-range check of the YAML reader behind "+decoder+" was not found or not understood: "+where)
+					continue
+				}
+				r.OK("C09.3", "reader-charset", where, fmt.Sprintf("code points the reader refuses outright, evaluated from its range check: %s", refused))
+				// what encoding/json leaves unescaped inside strings (its safeSet tables; output is
+				// valid UTF-8 so no surrogates): everything from U+0020 except '"', '\\', U+2028, U+2029
+				jsonRaw := runeSet{{0x20, 0x10ffff}}.intersect(runeSet{{'"', '"'}, {'\\', '\\'}, {0x2028, 0x2029}, {0xd800, 0xdfff}}.complement())
+				// U+0085 is accepted by the reader but is a line break to its scanner: folded inside a quoted scalar
+				bad := jsonRaw.intersect(refused.union(runeSet{{0x85, 0x85}}))
+				if ok, detail := c09SanitizerOK(c, san, bad); ok {
 					r.OK("C09.3", key, c.U.Pos(san.Pos()), ext+" files: "+enc+" output goes through "+c.U.RelName(san)+" before it is written: "+detail)
 					continue
 				} else {
@@ -226,12 +239,128 @@ func runC09(c *Ctx) {
 	}
 }
 
+// yamlReaderRefused evaluates, in the YAML reader reachable from the decoder
+// the repository uses, the range check that ends in the "control characters
+// are not allowed" error: the result is the exact set of code points for which
+// that error is reached (forward propagation of interval sets through the
+// chain of comparisons of the decoded value).
+func (c *Ctx) yamlReaderRefused(decoder *ssa.Function) (runeSet, string, bool) {
+	if decoder == nil {
+		return nil, "no decoder", false
+	}
+	var errCall *ssa.Call
+	// the reader lives in the decoder's module: every function of its package tree
+	for _, fn := range c.U.FuncsUnder(c.U.FuncPkgPath(decoder)) {
+		for _, call := range ir.Calls(fn) {
+			for _, a := range call.Common().Args {
+				if s, ok := ir.ConstString(a); ok && s == "control characters are not allowed" {
+					if cl, isCall := call.(*ssa.Call); isCall {
+						if errCall != nil && errCall != cl {
+							return nil, "more than one range check in the reader", false
+						}
+						errCall = cl
+					}
+				}
+			}
+		}
+	}
+	if errCall == nil {
+		return nil, "no call reporting \"control characters are not allowed\" in the decoder's package tree", false
+	}
+	args := errCall.Call.Args
+	var x ssa.Value = args[len(args)-1]
+	for i := 0; i < 4; i++ {
+		if cv, ok := x.(*ssa.Convert); ok {
+			x = cv.X
+		}
+	}
+	B := errCall.Block()
+	// a test of x: a comparison of x with a constant, or the value of an && / ||
+	// over such comparisons (go/ssa: a phi of constants and comparisons)
+	var isTest func(v ssa.Value, depth int) bool
+	isTest = func(v ssa.Value, depth int) bool {
+		if phi, ok := v.(*ssa.Phi); ok && depth < 4 {
+			for _, e := range phi.Edges {
+				if _, isConst := ir.ConstBool(e); !isConst && !isTest(e, depth+1) {
+					return false
+				}
+			}
+			return true
+		}
+		_, u := c.constraintOn(x, v, true, nil, 0)
+		return u
+	}
+	testOf := func(b *ssa.BasicBlock) *ssa.If {
+		iff, ok := b.Instrs[len(b.Instrs)-1].(*ssa.If)
+		if !ok || b.Succs[0] == b.Succs[1] || !isTest(iff.Cond, 0) {
+			return nil
+		}
+		return iff
+	}
+	S := B
+	for d := B.Idom(); d != nil; d = d.Idom() {
+		if testOf(d) == nil {
+			if len(d.Succs) == 1 {
+				continue // right operand of an && / ||
+			}
+			break
+		}
+		S = d
+	}
+	if S == B {
+		return nil, "the error at " + c.pos(errCall) + " is not under a chain of range comparisons", false
+	}
+	// forward from S: the values of x with which each exit of the region is reached
+	var rej, acc runeSet
+	steps := 0
+	path := ir.BlockPath{}
+	var rec func(b *ssa.BasicBlock, set runeSet)
+	rec = func(b *ssa.BasicBlock, set runeSet) {
+		steps++
+		if len(set) == 0 || steps > 20000 {
+			return
+		}
+		if b == B {
+			rej = rej.union(set)
+			return
+		}
+		if len(path) > 0 && (b == S || !S.Dominates(b)) {
+			acc = acc.union(set) // left the check (next iteration or code after it)
+			return
+		}
+		path = append(path, b)
+		defer func() { path = path[:len(path)-1] }()
+		if iff := testOf(b); iff != nil {
+			for k := 0; k < 2; k++ {
+				s, ok := c.constraintOn(x, iff.Cond, k == 0, append(ir.BlockPath{}, path...), 0)
+				if !ok {
+					steps = 1 << 30
+					return
+				}
+				rec(b.Succs[k], set.intersect(s))
+			}
+			return
+		}
+		if len(b.Succs) == 1 {
+			rec(b.Succs[0], set)
+			return
+		}
+		acc = acc.union(set)
+	}
+	rec(S, fullRunes())
+	where := c.U.Pos(errCall.Pos())
+	if steps > 20000 || len(rej.intersect(acc)) != 0 || !rej.union(acc).equal(fullRunes()) {
+		return nil, "range check at " + where + " not partitioned into refused/accepted", false
+	}
+	return rej.norm(), where, true
+}
+
 // c09SanitizerOK decides whether fn rewrites a JSON byte stream so that no
-// DEL and no C1 control character (U+007F..U+009F) is copied through
-// unchanged: the function must walk the runes of its input and every path of
+// code point of bad (what encoding/json leaves raw and the YAML reader refuses
+// or alters) is copied through unchanged: the function must walk the runes of its input and every path of
 // the loop body that copies the current rune must exclude those values
 // (abstract evaluation over rune intervals).
-func c09SanitizerOK(c *Ctx, fn *ssa.Function) (bool, string) {
+func c09SanitizerOK(c *Ctx, fn *ssa.Function, bad runeSet) (bool, string) {
 	if fn == nil || len(fn.Params) != 1 {
 		return false, "not a func([]byte) []byte"
 	}
@@ -248,7 +377,6 @@ func c09SanitizerOK(c *Ctx, fn *ssa.Function) (bool, string) {
 		return false, "no complete loop over the runes of the input"
 	}
 	x := loop.Elem
-	bad := runeSet{{0x7f, 0x9f}}
 	problem := ""
 	nCopy, nEsc := 0, 0
 	var path ir.BlockPath
@@ -289,6 +417,9 @@ func c09SanitizerOK(c *Ctx, fn *ssa.Function) (bool, string) {
 					for _, ev := range c.U.ContainerElems(call.Call.Args[1]) {
 						if usesRune(ev) {
 							nEsc++
+							if hit := set.intersect(runeSet{{0x10000, 0x10ffff}}); len(hit) > 0 {
+								problem = fmt.Sprintf("a path escapes the current rune as \\u followed by its hex value although it can be in %s: above U+FFFF that is not a four-digit escape and reads back as different characters", hit)
+							}
 						}
 					}
 				}
@@ -347,6 +478,14 @@ func c09SanitizerOK(c *Ctx, fn *ssa.Function) (bool, string) {
 	if nCopy == 0 || nEsc == 0 {
 		return false, fmt.Sprintf("the loop body has %d copying and %d escaping paths", nCopy, nEsc)
 	}
-	// the result is the buffer built in the loop
+	// every path rebuilds the output: returning the input unchanged on some path
+	// (e.g. an "all ASCII" fast path - DEL is ASCII) is not accepted
+	for _, ret := range ir.NormalReturns(fn) {
+		for _, p := range c.U.PathsOf(ir.ReturnResult(ret, 0)) {
+			if p.Root == ssa.Value(fn.Params[0]) {
+				return false, "a path returns the input bytes unchanged (" + c.pos(ret) + "): only the escaping loop may produce the result"
+			}
+		}
+	}
 	return true, fmt.Sprintf("no path copies a rune in %s unescaped (%d copying, %d escaping path(s) examined)", bad, nCopy, nEsc)
 }
